@@ -408,6 +408,37 @@ def clause5_hygiene(ctx, P):
     ctx.floor("C20.5 R-ORDER", 2)
 
 
+# functions that look for a terminating NUL in what they are given (the bundled cJSON's entry points without a length
+# call strlen on their input); a mapped file has no terminator of its own
+NUL_SCANNERS = ("cJSON_Parse", "cJSON_ParseWithOpts", "strlen", "strcpy", "strdup", "strcmp", "strchr", "strstr", "duplicate_string",
+                "puts", "fputs", "atoi", "strtol")
+
+
+def clause9_mapped_file(ctx, P):
+    """'loadable at every instant' includes every LENGTH the file can have: the bytes of the mapped credential file end with the
+    file - when its size is a multiple of the page size no NUL follows them inside the mapping.  The mapping is therefore only
+    handed to functions that are told its length (cJSON_ParseWithLength*), never to one that scans for a terminator."""
+    n = 0
+    bad = None
+    for f in P.own_functions():
+        for m in f.calls("mmap"):
+            n += 1
+            for c in f.all_insts():
+                if c.op != "call" or not c.callee or c is m:
+                    continue
+                for k, a in enumerate(c.a):
+                    lv, _ = Q.leaves(P, f, a, through_loads=False)
+                    if any(l[0] == "call" and l[3] == m.id for l in lv):
+                        nm = P.srcname_of(c.callee)
+                        if nm in NUL_SCANNERS and bad is None:
+                            bad = (f, c, nm)
+    ctx.ob("C20.2 R-BOUND", P.fn("auth_file.c:load_passwd_data"), "mapped-file-is-read-with-its-length", bad is None and n >= 1,
+           ("%s() hands the mapped file to %s() at %s, which looks for a terminating NUL: a credential file whose size is a multiple of "
+            "the page size has none inside the mapping - the daemon reads past it (SIGSEGV/SIGBUS at start-up, or stray bytes parsed) "
+            "and a perfectly valid file is not loadable" % (bad[0].srcname, bad[2], bad[1].loc)) if bad else
+           ("%d mmap site(s); the mapping is only passed with its length" % n if n else "no mmap of the credential file found"))
+
+
 RESOLVERS = ("realpath", "canonicalize_file_name")
 
 
@@ -520,6 +551,7 @@ def run(ctx):
         clause6_predicates_and_path(ctx, P, cg)
         clause7_salt_method(ctx, P)
         clause8_account_lookups(ctx, P)
+        clause9_mapped_file(ctx, P)
         clause2_atomic(ctx, P, cg)
         clause3_write(ctx, P, cg)
         clause4_effective(ctx, P, cg)
